@@ -125,14 +125,18 @@ def lean_phase(pid, theorems, modules, tier="quick"):
                 res["notes"].append("leanchecker rejected the compiled modules: " + out2.strip()[-400:])
     seen = set()
     ok = {}
+    per = {}
     # parse: "'name' depends on axioms: [a, b]" (possibly wrapped) / "'name' does not depend on any axioms"
     flat = re.sub(r"\n\s+", " ", out)
     for m in re.finditer(r"'([^']+)' depends on axioms: \[([^\]]*)\]", flat):
         axs = [a.strip() for a in m.group(2).split(",") if a.strip()]
         seen.update(axs)
+        per[m.group(1).split(".")[-1]] = axs
         ok[m.group(1)] = all(a in ALLOWED_AXIOMS for a in axs)
     for m in re.finditer(r"'([^']+)' does not depend on any axioms", flat):
         ok[m.group(1)] = True
+        per[m.group(1).split(".")[-1]] = []
+    res["axioms_by_theorem"] = per
     for t in theorems:
         full = t if t in ok else ("WowSrp." + t if ("WowSrp." + t) in ok else None)
         if full is not None and ok[full] and res["build_ok"]:
@@ -408,6 +412,7 @@ def main():
                           "correspondence check: harness/src/main.rs + lean/Driver.lean + tools/verif.py differ",
                           "modelled, not verified: rustc/std, sha-1, hmac, md5, num-bigint, rug/GMP, rand (Model/Deps.lean, Model/Crypto.lean)"],
             theorems=mod.THEOREMS, theorems_failed=lean["failed"], leanchecker=lean.get("leanchecker"),
+            axioms_by_theorem=lean.get("axioms_by_theorem", {}),
             evaluations=len(cases) * len(backends), distinct_nontrivial=len(distinct),
             rule=getattr(mod, "RULE", ""), samples=samples,
             traces_validated_against_impl=len(cases) if model_outs else 0,
